@@ -89,10 +89,29 @@ def run_impl(c):
     if k == "irregular_bad":
         import datetime as _dt
         bad = {"int": lambda v: v, "none": lambda v: None, "str": lambda v: "abc"[v % 3], "float": lambda v: float(v),
-               "date": lambda v: _dt.date(2020, 1, 1 + v), "td": lambda v: _dt.timedelta(seconds=v)}[c["bad"]]
+               "date": lambda v: _dt.date(2020, 1, 1 + v), "td": lambda v: _dt.timedelta(seconds=v),
+               # things that merely COMPARE with datetimes are not datetimes either
+               "dt64": lambda v: __import__("numpy").datetime64(_dt.datetime(1904, 1, 1) + _dt.timedelta(seconds=v), "us"),
+               "duck": lambda v: _Duck(mk_dtm(c["fam"], v * UNIT[c["fam"]]))}[c["bad"]]
         seq = [bad(v) if j in c["at"] else mk_dtm(c["fam"], v * UNIT[c["fam"]]) for j, v in enumerate(c["l"])]
         return vf.try_impl(lambda: (Timing.create_with_irregular_interval(seq if c.get("seq", "list") == "list" else tuple(seq)), 0)[1])
     raise AssertionError(k)
+
+
+class _Duck:
+    """orders like the datetime it wraps, against datetimes and against its own kind, without being one"""
+    def __init__(self, d):
+        self.d = d
+
+    def _o(self, other):
+        return other.d if isinstance(other, _Duck) else other
+
+    def __lt__(self, o): return self.d < self._o(o)
+    def __le__(self, o): return self.d <= self._o(o)
+    def __gt__(self, o): return self.d > self._o(o)
+    def __ge__(self, o): return self.d >= self._o(o)
+    def __eq__(self, o): return self.d == self._o(o)
+    def __hash__(self): return hash(self.d)
 
 
 def _oz(v):
@@ -211,8 +230,10 @@ def gen_cases(rng, tier):
     for _ in range(250 if not big else 4000):
         ln = rng.randrange(1, 7)
         l = [rng.randrange(4) for _ in range(ln)] if rng.random() < 0.6 else sorted(rng.randrange(5) for _ in range(ln))
-        bad = rng.choice(["int", "none", "str", "float", "date", "td"])
+        bad = rng.choice(["int", "none", "str", "float", "date", "td", "dt64", "duck", "duck"])
         at = list(range(ln)) if rng.random() < 0.4 else sorted(rng.sample(range(ln), rng.randrange(1, ln + 1)))
+        if bad in ("dt64", "duck") and ln > 1 and rng.random() < 0.6:
+            at = [j for j in at if j > 0] or [ln - 1]     # a genuine datetime first, the foreign element later
         cases.append({"k": "irregular_bad", "fam": rng.choice(fams), "l": l, "bad": bad, "at": at, "seq": rng.choice(["list", "tuple"])})
     # regular windows that END exactly at (or within one step of) the family's range limit: all n values fit
     for _ in range(200 if not big else 3000):
